@@ -13,6 +13,7 @@ Open Scope Z_scope.
 From SK Require Import Proofs.ValidCuts.
 From Coq Require Import Reals.
 From SK Require Import Gen.KernelsR Proofs.RealLib Proofs.ScoreKernels.
+From SK Require Import Model.PeltR Model.CapaR Proofs.CapaReal.
 Close Scope R_scope.
 Open Scope Z_scope.
 Definition capa_code Sc Sp ac bc ap bp m M n := capa Sc Sp ac bc ap bp m M (m - 1) n.
@@ -166,3 +167,45 @@ Proof. exact @saving_subadditive_of_parts. Qed.
 Print Assumptions C03_builtin_l2_saving_nonneg.
 Print Assumptions C03_builtin_l2_saving_subadditive.
 Print Assumptions C03_cost_derived_savings_subadditive.
+
+(** ---- added: statements re-derived from the lemma files by tools/append_props.py ---- *)
+Theorem C03_real_savings_scores_are_prefix_optima : forall (Sc : nat -> nat -> list R) (Sp : nat -> list R) (ac : R) (bc : list R) (ap : R) (bp : list R) (m M n : nat), (2 <= m)%nat -> (m <= M)%nat -> forall (scores : list R) (c p : list (nat * nat)), capaR_code Sc Sp ac bc ap bp m M n = (scores, c, p) -> penalties_okR ac bc ap bp -> savings_okR Sc Sp bc bp -> subadditiveR Sc bc m M -> forall t : nat, (t < n)%nat -> nthR scores t = GR (fun s e : nat => PbestR (Sc s e) ac bc) (fun t0 : nat => PbestR (Sp t0) ap bp) m M (S t).
+Proof. exact @capaR_scores_are_prefix_optima. Qed.
+
+Theorem C03_real_savings_output_valid : forall (Sc : nat -> nat -> list R) (Sp : nat -> list R) (ac : R) (bc : list R) (ap : R) (bp : list R) (m M n : nat), (2 <= m)%nat -> (m <= M)%nat -> forall (scores : list R) (c p : list (nat * nat)), capaR_code Sc Sp ac bc ap bp m M n = (scores, c, p) -> Valid m M (map to_anom (capa_predict false c p)) n.
+Proof. exact @capaR_output_valid. Qed.
+
+Theorem C03_real_savings_reevaluation_gives_final_score : forall (Sc : nat -> nat -> list R) (Sp : nat -> list R) (ac : R) (bc : list R) (ap : R) (bp : list R) (m M n : nat), (2 <= m)%nat -> (m <= M)%nat -> forall (scores : list R) (c p : list (nat * nat)), capaR_code Sc Sp ac bc ap bp m M n = (scores, c, p) -> totalR (PcR Sc ac bc) (PpR Sp ap bp) (map to_anom (capa_predict false c p)) = nthR (0 :: scores) n.
+Proof. exact @capaR_reevaluation_gives_final_score. Qed.
+
+Theorem C03_real_savings_output_is_maximiser : forall (Sc : nat -> nat -> list R) (Sp : nat -> list R) (ac : R) (bc : list R) (ap : R) (bp : list R) (m M n : nat), (2 <= m)%nat -> (m <= M)%nat -> forall (scores : list R) (c p : list (nat * nat)), capaR_code Sc Sp ac bc ap bp m M n = (scores, c, p) -> penalties_okR ac bc ap bp -> savings_okR Sc Sp bc bp -> subadditiveR Sc bc m M -> forall l : list anom, Valid m M l n -> totalR (PcR Sc ac bc) (PpR Sp ap bp) l <= totalR (PcR Sc ac bc) (PpR Sp ap bp) (map to_anom (capa_predict false c p)).
+Proof. exact @capaR_output_is_maximiser. Qed.
+
+Theorem C03_real_savings_scores_nonneg_monotone : forall (Sc : nat -> nat -> list R) (Sp : nat -> list R) (ac : R) (bc : list R) (ap : R) (bp : list R) (m M n : nat), (2 <= m)%nat -> (m <= M)%nat -> forall (scores : list R) (c p : list (nat * nat)), capaR_code Sc Sp ac bc ap bp m M n = (scores, c, p) -> (forall t : nat, (t < n)%nat -> 0 <= nthR scores t) /\ (forall t : nat, (S t < n)%nat -> nthR scores t <= nthR scores (S t)).
+Proof. exact @capaR_scores_nonneg_monotone. Qed.
+
+Theorem C03_real_savings_ignore_points : forall (Sc : nat -> nat -> list R) (Sp : nat -> list R) (ac : R) (bc : list R) (ap : R) (bp : list R) (m M n : nat) (scores : list R) (c p : list (nat * nat)), capaR_code Sc Sp ac bc ap bp m M n = (scores, c, p) -> capa_predict true c p = filter (fun se : nat * nat => negb (is_point se)) (capa_predict false c p).
+Proof. exact @capaR_ignore_point_anomalies. Qed.
+
+Theorem C03_real_savings_Pbest_is_best_subset : forall (sav : list R) (alpha : R) (betas : list R), length betas = length sav -> (1 <= length sav)%nat -> (forall J : list nat, subset_ok (length sav) J -> subset_valueR sav alpha betas J <= PbestR sav alpha betas) /\ (exists J : list nat, subset_ok (length sav) J /\ subset_valueR sav alpha betas J = PbestR sav alpha betas).
+Proof. exact @PbestR_is_best_subset. Qed.
+
+Theorem C03_real_savings_penalise_vs_best_subset : forall (sav : list R) (alpha : R) (betas : list R), length betas = length sav -> (1 <= length sav)%nat -> (forall b : R, In b betas -> 0 <= b) -> (forall x : R, In x sav -> 0 <= x) -> penaliseR sav alpha betas = (if all_tinyR betas then PbestR sav alpha betas else if all_equalR betas then Rmax (PbestR sav alpha betas) (- alpha) else PbestR sav alpha betas).
+Proof. exact @penaliseR_eq_Pbest. Qed.
+
+Theorem C03_real_model_extends_integer_model : forall (Sc : nat -> nat -> list Z) (Sp : nat -> list Z) (ac : Z) (bc : list Z) (ap : Z) (bp : list Z) (m M d n : nat) (scores : list Z) (c p : list (nat * nat)), capa Sc Sp ac bc ap bp m M d n = (scores, c, p) -> capaR (fun s e : nat => map IZR (Sc s e)) (fun t : nat => map IZR (Sp t)) (IZR ac) (map IZR bc) (IZR ap) (map IZR bp) m M d n = (map IZR scores, c, p).
+Proof. exact @capaR_of_Z. Qed.
+
+Theorem C03_builtin_l2_saving_end_to_end : forall (xss : list (list R)) (ac : R) (bc : list R) (ap : R) (bp : list R) (m M n : nat) (scores : list R) (c p : list (nat * nat)), (2 <= m)%nat -> (m <= M)%nat -> (1 <= length xss)%nat -> length bc = length xss -> length bp = length xss -> 0 <= ac -> 0 <= ap -> (forall b : R, In b bc -> 0 <= b) -> (forall b : R, In b bp -> 0 <= b) -> capaR (l2Sc xss) (l2Sp xss) ac bc ap bp m M (m - 1) n = (scores, c, p) -> let PC := PcR (l2Sc xss) ac bc in let PP := PpR (l2Sp xss) ap bp in let out := map to_anom (capa_predict false c p) in Valid m M out n /\ totalR PC PP out = nthR (0 :: scores) n /\ (forall l : list anom, Valid m M l n -> totalR PC PP l <= totalR PC PP out) /\ (forall t : nat, (t < n)%nat -> nthR scores t = GR (fun s e : nat => PbestR (l2Sc xss s e) ac bc) (fun t0 : nat => PbestR (l2Sp xss t0) ap bp) m M (S t)).
+Proof. exact @capa_l2_end_to_end. Qed.
+
+Print Assumptions C03_real_savings_scores_are_prefix_optima.
+Print Assumptions C03_real_savings_output_valid.
+Print Assumptions C03_real_savings_reevaluation_gives_final_score.
+Print Assumptions C03_real_savings_output_is_maximiser.
+Print Assumptions C03_real_savings_scores_nonneg_monotone.
+Print Assumptions C03_real_savings_ignore_points.
+Print Assumptions C03_real_savings_Pbest_is_best_subset.
+Print Assumptions C03_real_savings_penalise_vs_best_subset.
+Print Assumptions C03_real_model_extends_integer_model.
+Print Assumptions C03_builtin_l2_saving_end_to_end.
